@@ -307,7 +307,7 @@ def wire(ctx):
     """'This survives refreshes and serialization': users, tracers and ids round-trip."""
     from . import c13
     c13.restricted(ctx, r'(core::TracingSecretKey|core::TracingPublicKey|core::UserId|core::UserSecretKey|core::MasterSecretKey)$',
-                   [c13.agree, c13.fields, c13.order, c13.read_loop_keeps_every_element, c13.read_keeps_every_element])
+                   [c13.agree, c13.fields, c13.order, c13.read_loop_keeps_every_element, c13.read_keeps_every_element, c13.announced_count_of_what_follows])
 
 
 REORDERING = (r'^std::iter::Iterator::(rev|skip|step_by|skip_while|take_while|filter|filter_map|cycle|chain|flat_map|peekable|scan|nth|last)$',
